@@ -81,7 +81,16 @@ func Gen(caseID, tier string) (json.RawMessage, error) {
 	nt := r.PickInt(2, 2, 3, 4, 6, 8, 12, 16)
 	pool := r.Range(1, 5)
 	modes := []string{"min", "fast", "fast", "mixed", "mixed", "slow"}
-	shape := r.Intn(5)
+	shape := r.Intn(6)
+	if shape == 5 {
+		// login storm: nobody has logged in yet, every task starts with a request at the same moment
+		// (each finds no session and logs in), and after every ticket life they all come back together
+		tp.PreLogin = false
+		if nt < 3 {
+			nt = r.PickInt(3, 4, 6)
+		}
+		tp.LifeS = int64(r.PickInt(10, 15, 30))
+	}
 	if shape == 4 {
 		// requests spread over the whole life of a renewable TGT: the library's renewal (at 5/6 of
 		// the life) and its session update happen while other tasks are asking for tickets
@@ -143,6 +152,19 @@ func Gen(caseID, tier string) (json.RawMessage, error) {
 			}
 			if shape == 1 {
 				o.ThinkNs = int64(r.Range(0, 2000)) // maximum contention
+			}
+			if shape == 5 {
+				if o.Op == "destroy" {
+					o.Op, o.SPN = "tgs", spns[r.Intn(pool)]
+				}
+				if k == 0 {
+					o.Op, o.SPN = "tgs", spns[r.Intn(pool)]
+					o.ThinkNs = int64(r.Range(0, 3000))
+				} else if r.Chance(2, 3) {
+					o.ThinkNs = tp.LifeS*1_200_000_000*int64(r.Range(1, 4)) + int64(r.Range(0, 3000))
+				} else {
+					o.ThinkNs = int64(r.Range(0, 3000))
+				}
 			}
 			if shape == 4 {
 				o.ThinkNs = int64(r.Range(0, int(tp.LifeS)*250))*1_000_000 + int64(r.Range(0, 3000))
